@@ -606,7 +606,7 @@ def draw_values(rng, sizes):
 
 
 def make_case(rng, flavour=None):
-    """One random component. flavour in {None, 'hd_nonelem', 'flip'}."""
+    """One random component. flavour in {None, 'hd_nonelem', 'flip'} ('zero0': make_zero_case)."""
     r = rng
     hd = r.random() < 0.35 or flavour == 'hd_nonelem'
     if flavour == 'flip':
@@ -707,6 +707,56 @@ def make_case(rng, flavour=None):
     return case
 
 
+def make_zero_case(rng):
+    """First linearization with input entries that are exactly 0.0 (a legitimate starting point),
+    second at a generic point: partials that vanish only *at* the first point (d(z**2)/dz,
+    d(z*w)/dw, d(1-cos z)/dz ...) must still be right afterwards.  Default automatic coloring,
+    smooth expressions whose partials vanish at most quadratically at 0."""
+    r = rng
+    n = r.choice([2, 3, 3, 4])
+    S = (n,)
+    Z, W, A = ('var', 'x0'), ('var', 'x1'), ('var', 'x2')
+    templ = [
+        ('powi', Z, 2),
+        ('bin', '*', Z, W),
+        ('bin', '*', ('lit', 3.0), ('bin', '*', Z, W)),
+        ('bin', '+', ('bin', '*', ('bin', '*', Z, Z), W), W),
+        ('bin', '*', ('call1', 'sin', Z), W),
+        ('bin', '-', ('lit', 1.0), ('call1', 'cos', Z)),
+        ('bin', '*', Z, ('call1', 'exp', W)),
+        ('bin', '*', ('bin', '+', Z, W), Z),
+        ('bin', '*', Z, A),
+        ('bin', '*', ('call1', 'tanh', Z), W),
+        ('bin', '+', ('powi', Z, 2), ('bin', '*', A, W)),
+        ('bin', '*', ('call1', 'arctan', Z), ('powi', W, 2)),
+    ]
+    n_out = r.choice([1, 2, 2, 3])
+    outs = [{'name': 'y0', 'shape': [n], 'expr': r.choice(templ), 'units': None}]
+    g = Gen(r, S, ['x1'], ['x2'], r.random() < 0.5, allow_rev=True, allow_ext=False)
+    for k in range(1, n_out):
+        if r.random() < 0.5:
+            e, shape = r.choice(templ), S
+        else:
+            kind = 'S' if r.random() < 0.7 else '1'
+            e, shape = g.gen(kind, r.choice([1, 2, 3])), (S if kind == 'S' else (1,))
+        outs.append({'name': 'y%d' % k, 'shape': list(shape), 'expr': e, 'units': None})
+    used = sorted(set(v for o in outs for v in used_vars(o['expr'])))
+    shapes = {'x0': S, 'x1': S, 'x2': (1,)}
+    sizes = [size_of(shapes[v]) for v in used]
+    v0, v1 = draw_values(r, sizes), draw_values(r, sizes)
+    ins = []
+    for name, a, b in zip(used, v0, v1):
+        if name == 'x0':
+            # all entries, or a random non-empty subset, start at exactly 0.0
+            idx = list(range(n)) if r.random() < 0.6 else r.sample(range(n), r.randrange(1, n + 1))
+            a = ['0/1' if i in idx else q for i, q in enumerate(a)]
+        ins.append({'name': name, 'shape': list(shapes[name]), 'vals': [a, b], 'units': None,
+                    'src_units': None, 'factor': 1.0})
+    return {'ins': ins, 'outs': outs, 'hd': False, 'do_coloring': r.choice([None, None, True]),
+            'manual': None, 'sbc': r.choice(['none', 'none', 'var']), 'comp_units': None,
+            'fac': r.random() < 0.3, 'flavour': 'zero0'}
+
+
 def hd_sizes_ok(case):
     """Documented precondition of has_diag_partials: all arrays of size > 1 have one size."""
     sz = {size_of(v['shape']) for v in case['ins']} | {size_of(o['shape']) for o in case['outs']}
@@ -716,7 +766,7 @@ def hd_sizes_ok(case):
 def gen_valid(rng, flavour=None, tries=400):
     for _ in range(tries):
         try:
-            case = make_case(rng, flavour)
+            case = make_zero_case(rng) if flavour == 'zero0' else make_case(rng, flavour)
             if case['hd'] and not hd_sizes_ok(case):
                 continue
             for o in case['outs']:
@@ -867,9 +917,12 @@ class C14(Property):
     # -- cases --------------------------------------------------------------------------------------
     def cases(self, rng, tier):
         n = 400 if tier == 'quick' else 15000
+        nz = 40 if tier == 'quick' else 600
         for i in range(n):
             x = rng.random()
             flavour = 'hd_nonelem' if x < 0.04 else ('flip' if x < 0.08 else None)
+            if i < nz:
+                flavour = 'zero0'      # targeted family first: zero-valued inputs at the first point
             case = gen_valid(rng, flavour)
             if case is not None:
                 yield case
@@ -1056,7 +1109,37 @@ class C14(Property):
                     stale = False
                     break
         sig['colored_sparsity_changed'] = bool(stale)
+        # The known finding is about sparsity that really differs around the two points (piecewise
+        # functions).  An entry that is zero only *exactly at* the first point (isolated zero of a
+        # smooth partial, e.g. d(x**2)/dx at x = 0) must be found by the perturbed sparsity
+        # sampling of _compute_coloring; missing it is a different failure.
+        sig['isolated_zero'] = bool(stale) and self._isolated_zero(case, impl, failure, data, fac)
         return sig
+
+    def _isolated_zero(self, case, impl, failure, data, fac):
+        names = [v['name'] for v in case['ins']]
+        try:
+            for sign in (1.0, -1.0):
+                pert = dict(case)
+                pert['ins'] = []
+                for vi, v in enumerate(case['ins']):
+                    vals0 = []
+                    for i, q in enumerate(v['vals'][0]):
+                        x = unrat(q)
+                        base = abs(x) if x != 0 else Fraction(1)
+                        vals0.append(rat(x + base * Fraction(int(sign) * (3 + (i + vi) % 4), 10 ** 7)))
+                    pert['ins'].append(dict(v, vals=[vals0, v['vals'][1]]))
+                _, jp, _ = exact_eval(pert, 0)
+                for on in sorted({b[1] for b in failure['bad']}):
+                    j0 = np.hstack([data[0][2][(on, n)] * fac[n] for n in names])
+                    j1 = np.hstack([data[1][2][(on, n)] * fac[n] for n in names])
+                    jq = np.hstack([jp[(on, n)] * fac[n] for n in names])
+                    new_nz = (np.abs(j0) <= 1e-7 * (1.0 + np.abs(j1))) & (np.abs(j1) > 0)
+                    if np.any(new_nz & (np.abs(j0) == 0) & (np.abs(jq) > 1e-16)):
+                        return True
+        except Exception:
+            return False
+        return False
 
     def nontrivial(self, case, impl):
         try:
